@@ -191,6 +191,14 @@ def curated_full():
     add(('ab-ab', ab(ab(cat(a, LINE, a)))))
     add(('ab-grp-inner', ab(cat(a, LINE, grp(cat(a, LINE, a))))))
     add(('nest-ab', grp(nest(ab(cat(a, LINE, a))))))
+    add(('cat1-ab', grp(cat(ab(cat(a, LINE, a))))))
+    add(('cat1-ab-padded', grp(cat(S(''), ab(cat(a, LINE, a)), NIL))))
+    add(('cat1-ab-inner', grp(cat(a, LINE, cat(ab(cat(a, LINE, a))), LINE, a))))
+    add(('cat1-ab-nest', grp(cat(a, nest(cat(ab(cat(LINE, a)))), LINE, a))))
+    add(('cat1-ab-ann', grp(ann(0, cat(ab(cat(a, LINE, a)))))))
+    add(('cat1-grp', cat(grp(cat(a, LINE, a)))))
+    add(('cat1-hard', grp(cat(a, LINE, cat(HARD), a))))
+    add(('fill1-ab', grp(cat(a, LINE, fill(ab(cat(a, LINE, a)))))))
     add(('nils', cat(a, S(''), NIL, a)))
     add(('grp-nil', cat(a, grp(NIL), a)))
     add(('nest-nil', cat(a, nest(NIL), a)))
@@ -233,6 +241,15 @@ def curated_classic():
     add(('grp4', grp(cat(a, LINE, a, LINE, a, LINE, a))))
     add(('nested3', grp(cat(a, LINE, grp(cat(a, LINE, grp(cat(a, LINE, a))))))))
     add(('align-after-grp', cat(grp(cat(a, LINE, a)), align(cat(a, HARD, a)))))
+    # a group reached while the enclosing group is already flat (raw HARDLINE inside it)
+    add(('grp-after-hard-in-grp', grp(cat(a, HARD, grp(cat(a, LINE, a))))))
+    add(('grp-after-hard-in-grp-nest', grp(cat(a, nest(cat(HARD, grp(cat(a, LINE, a)))), HARD, a))))
+    add(('grp-after-hard-in-2grps', grp(grp(cat(a, HARD, grp(cat(a, SOFT, a)), LINE, a)))))
+    # a group sitting on a line that is indented deeper than the group's own indentation
+    add(('grp-on-deeper-line', cat(a, nest(cat(LINE, a)), grp(cat(a, LINE, a)))))
+    add(('grp-on-deeper-line-2', cat(nest(cat(a, HARD, a), off=('c', 6)), S(' '), grp(cat(a, LINE, a, LINE, a)))))
+    add(('grp-on-deeper-line-nested', nest(cat(a, nest(cat(HARD, a)), grp(cat(LINE, a, LINE, a))))))
+    add(('grp-on-shallower-line', nest(cat(a, nest(cat(HARD, a), off=('c', -2)), grp(cat(a, LINE, a))), off=('c', 4))))
     add(('grp-in-align', cat(a, align(cat(grp(cat(a, LINE, a)), HARD, a)))))
     return out + [(n, number(s)) for n, s in extra]
 
@@ -256,6 +273,7 @@ def enum_shapes(size, full=True, _memo={}):
         sub = lambda n: enum_shapes(n, full)
         # unary combinators
         for d in sub(size - 1):
+            res.append(cat(d))
             res.append(grp(d))
             res.append(nest(d))
             res.append(ab(d))
@@ -317,7 +335,7 @@ def random_shapes(count, seed, full, max_nodes=8, max_leaves=4):
     def gen(budget):
         if budget <= 0 or rnd.random() < 0.25:
             return rnd.choice([X, X, X, LINE, LINE, SOFT, HARD] + ([NIL, S(' '), S(',')] if full else []))
-        ops = ['grp', 'grp', 'nest', 'ab', 'align', 'cat', 'cat', 'cat', 'cat3']
+        ops = ['grp', 'grp', 'nest', 'ab', 'align', 'cat', 'cat', 'cat', 'cat3', 'cat1', 'catpad']
         if full:
             ops += ['hang', 'ann', 'fc', 'fill']
         op = rnd.choice(ops)
@@ -341,6 +359,10 @@ def random_shapes(count, seed, full, max_nodes=8, max_leaves=4):
             for j in range(k):
                 items.append(gen((budget - 1) // k) if j % 2 == 0 else rnd.choice([LINE, SOFT]))
             return fill(*items)
+        if op == 'cat1':
+            return cat(gen(budget - 1))
+        if op == 'catpad':
+            return cat(S(''), gen(budget - 1), NIL) if full else cat(gen(budget - 1))
         if op == 'cat':
             return cat(gen((budget - 1) // 2), gen((budget - 1) // 2))
         return cat(gen((budget - 1) // 3), gen((budget - 1) // 3), gen((budget - 1) // 3))
